@@ -229,6 +229,52 @@ def prints(i):
     return i * 2
 
 
+# --- three things the unchanged tracer is known to do (open findings of C03; see known_findings.txt)
+class HashMeta(type):
+    def __hash__(cls):
+        J("HashMeta.__hash__")
+        return 7
+
+    def __eq__(cls, other):
+        return cls is other
+
+
+class Hashed(metaclass=HashMeta):
+    pass
+
+
+def takes_class(i):
+    return passthrough(Hashed) is Hashed
+
+
+def locals_snapshot(i):
+    x = 1
+    d = locals()
+    d['x'] = 2
+
+    def inner():
+        return 0
+    inner()
+    return d['x']
+
+
+class Fin:
+    def __del__(self):
+        J("Fin.__del__")
+
+
+def finalizer_order(i):
+    def outer():
+        r = Fin()
+
+        def inner():
+            return r
+        inner()
+    outer()
+    J("after outer")
+    return 0
+
+
 def uses_random(i):
     """a program with its own use of the `random` module: seeded, some traced calls, then it draws"""
     import random
